@@ -1,10 +1,15 @@
 import Nervus.Driver.Util
 import Nervus.Driver.OKey
+import Nervus.Driver.Engine
 open Nervus.Driver
 
 /-- stream registry: one line per stream (kept one-per-line so that merges are unions) -/
 def streams : List (String × Stream) := [
-  ("okey", OKeyStream.stream)
+  ("okey", OKeyStream.stream),
+  ("engine", EngineStream.stream),
+  ("engine_reopen", EngineStream.streamReopen),
+  ("engine_compact", EngineStream.streamCompact),
+  ("engine_abort", EngineStream.streamAbort)
 ]
 
 def main (args : List String) : IO UInt32 := do
